@@ -202,3 +202,22 @@ Theorem C13_hosts_every_line : forall pre l post,
   exists e, hosts_search_ip (hosts_build (pre ++ l :: post)) (hl_ip l) = Some e /\ In (hl_ip l) (he_ips e).
 Proof. exact hosts_every_line. Qed.
 Print Assumptions C13_hosts_every_line.
+
+(* which names are IPv4 literals is decided by the model: inet_pton4 is the decimal branch of
+   ares_inet_net_pton_ipv4 (what ares_inet_pton(AF_INET, ..) does for a digits-and-dots name) *)
+Theorem C13_literal_is_dotted_quad : forall name a, inet_pton4 name = Some a -> length a = 4%nat /\ Forall is_byte a.
+Proof. exact inet_pton4_sound. Qed.
+Print Assumptions C13_literal_is_dotted_quad.
+
+Theorem C13_dotted_quad_is_literal : forall a b c d, is_byte a -> is_byte b -> is_byte c -> is_byte d ->
+  inet_pton4 (dec_digits a ++ [46] ++ dec_digits b ++ [46] ++ dec_digits c ++ [46] ++ dec_digits d) = Some [a; b; c; d].
+Proof. exact inet_pton4_dotted_quad. Qed.
+Print Assumptions C13_dotted_quad_is_literal.
+
+(* the literal path with the concrete parser: an AF_INET node is the parsed address, four octets *)
+Theorem C13_literal_node_concrete : forall name family port flags p6 ai a,
+  fake_addrinfo name family port flags (inet_pton4 name) p6 = FAddr ai ->
+  ai_nodes ai = [mkNode LEG_AF_INET a port 0] ->
+  inet_pton4 name = Some a /\ length a = 4%nat /\ Forall is_byte a /\ family <> LEG_AF_INET6.
+Proof. exact literal_node_concrete. Qed.
+Print Assumptions C13_literal_node_concrete.
